@@ -25,4 +25,18 @@ Proof.
   all: split; [first [wf_tac | wfw_tac] | split; [ext_tac | norm; auto]].
   all: finish.
 Qed.
+
+(* Database.disconnect() in an idle thread: the pooled connection is closed (exactly once: it was live), nothing else changes *)
+Lemma pool_disconnect_spec : forall s, WF s -> k_reg s = false ->
+  match pool_disconnect oracle s with
+  | (Blocked, _) => False
+  | (_, s') => WF s' /\ Ext s s' /\ k_reg s' = false /\ p_has s' = false /\ lock s' = lock s
+  end.
+Proof.
+  destruct_st. intros [[? ? ? ? ? ? ? ? ? ? ? ? ?] ? ?] ?.
+  unfold pool_disconnect. unfold_all. run.
+  all: try reflexivity.
+  all: split; [wf_tac | split; [ext_tac | norm; auto]].
+  all: finish.
+Qed.
 End S.
